@@ -4,6 +4,7 @@
 //!   h2v run                               execute the op script on stdin against the real code,
 //!                                         one answer line per op line on stdout
 mod codec;
+mod comp;
 mod conn;
 mod conngen;
 mod dbg;
@@ -15,6 +16,8 @@ use std::io::{BufRead, Write};
 
 fn main() {
     let args: Vec<String> = std::env::args().collect();
+    // panics inside the code under test are results (caught per op), not noise on stderr
+    std::panic::set_hook(Box::new(|_| {}));
     match args.get(1).map(|s| s.as_str()) {
         Some("gen") => {
             let profile = args.get(2).expect("profile");
@@ -22,7 +25,14 @@ fn main() {
             let cases: usize = args.get(4).and_then(|s| s.parse().ok()).unwrap_or(100);
             let out = std::io::stdout();
             let mut out = std::io::BufWriter::new(out.lock());
-            let ok = if profile.starts_with("conn-") {
+            let ok = if profile == "state-exhaustive" {
+                comp::gen_state_exhaustive(&mut out);
+                true
+            } else if profile == "flow" {
+                let mut rng = util::Rng::new(seed);
+                comp::gen_flow(&mut rng, cases, &mut out);
+                true
+            } else if profile.starts_with("conn-") {
                 let mut rng = util::Rng::new(seed);
                 conngen::generate(profile, &mut rng, cases, &mut out)
             } else {
@@ -42,6 +52,7 @@ fn main() {
             let mut cod = codec::CodecH::new(16384);
             let mut rd_items: Vec<String> = vec![];
             let mut cn = conn::ConnH::none();
+            let mut cmp = comp::Comp::new();
             for line in stdin.lock().lines() {
                 let line = line.unwrap();
                 let t = line.trim();
@@ -60,6 +71,9 @@ fn main() {
                     }
                     if ws[0].starts_with("cn_") {
                         return cn.handle(&ws);
+                    }
+                    if ws[0].starts_with("fc_") || ws[0].starts_with("stt_") {
+                        return cmp.handle(&ws);
                     }
                     let a = cod.handle(&ws)?;
                     if ws[0] == "rd_new" {
